@@ -5,9 +5,9 @@ cd /verif/harness && export GOFLAGS=-mod=mod GOPROXY=off GOSUMDB=off GOTOOLCHAIN
 go test -tags verif -c -o /tmp/devroot/bin/run.test ./props/run || exit 2
 rm -rf /tmp/devrun && mkdir -p /tmp/devrun
 for s in "$@"; do
-  (cd /tmp/devrun && mkdir -p cwd$s && cd cwd$s && VERIF_LEVEL=$L VERIF_WORK=/tmp/devrun/work$s timeout 1500 /tmp/devroot/bin/run.test -test.run "$T" -rapid.checks=$N -rapid.seed=$s -rapid.shrinktime=60s > /tmp/devrun/log$s 2>&1; echo "seed $s rc=$?" >> /tmp/devrun/done) &
+  (cd /tmp/devrun && mkdir -p cwd$s && cd cwd$s && VERIF_LEVEL=$L VERIF_WORK=/dev/shm/devrun/work$s timeout 1500 /tmp/devroot/bin/run.test -test.run "$T" -rapid.checks=$N -rapid.seed=$s -rapid.shrinktime=60s > /tmp/devrun/log$s 2>&1; echo "seed $s rc=$?" >> /tmp/devrun/done) &
 done
 wait
 cat /tmp/devrun/done
 for s in "$@"; do grep -m1 -o "VKEY=[^ ]*" /tmp/devrun/log$s | head -1; done | sort | uniq -c
-rm -rf /tmp/devrun/work*
+rm -rf /dev/shm/devrun
